@@ -148,7 +148,17 @@ func (e *Exec) foreignGlobal(g *ssa.Global, et types.Type) Value {
 	if types.Identical(et, types.Universe.Lookup("error").Type()) {
 		return e.opaqueError(g.String())
 	}
-	return e.zero(et)
+	if st, ok := et.Underlying().(*types.Struct); ok && st.NumFields() == 0 {
+		return e.zero(et)
+	}
+	switch g.String() {
+	case "github.com/vapourismo/knx-go/knx/util.Logger", "time.UTC", "time.Local",
+		"golang.org/x/text/encoding/charmap.ISO8859_1":
+		// nil logger; locations and the charmap are only passed to stubbed functions
+		return e.zero(et)
+	}
+	e.unsupported("read of package-level variable %s of a package whose initialiser is not executed", g.String())
+	return nil
 }
 
 func (e *Exec) opaqueError(tag string) Value {
@@ -278,6 +288,9 @@ func (e *Exec) step(t *Thread, granted bool) (res stepRes) {
 		e.spawn(t, clo, args)
 	case *ssa.If:
 		c := e.get(f, x.Cond).(*term.T)
+		if !c.IsConst() && !e.Cfg.NoIfConv && e.ifConvert(f, x, c) {
+			return stCont
+		}
 		side := e.Branch(c, e.posOf(x))
 		if side {
 			e.jump(f, f.Block.Succs[0])
